@@ -224,4 +224,37 @@ Section Subset.
       try (apply apply_events_values in H as [[]|H]);
       try (apply power_order_in in H); auto.
   Qed.
+
+  (* the same argument for any predicate: what holds of the state-set events and of the auth
+     difference holds of the result *)
+  Theorem result_from_sets_and_auth_difference (P : event -> Prop) v21 sets auth_events :
+    (forall y, In y (concat sets) -> P y) ->
+    (forall y, In y (auth_difference_new shE v21 (dedup_events auth_events)
+                       (fst (split_conflicted shG false sets)) sets) -> P y) ->
+    forall x,
+    In x (result_events (resolve_v2_new allowed rejected shE shP shG priv cl ud v21 sets auth_events)) -> P x.
+  Proof.
+    intros Hsets Hdiff x. unfold resolve_v2_new.
+    set (cu := split_conflicted shG false sets) in *.
+    assert (Hc : forall y, In y (fst cu) -> P y) by (intros; apply Hsets, (split_conflicted_sub false); auto).
+    assert (Hu : forall y, In y (snd cu) -> P y) by (intros; apply Hsets, (split_conflicted_sub false); auto).
+    set (authmap := dedup_events auth_events) in *.
+    set (full := fst cu ++ auth_difference_new shE v21 authmap (fst cu) sets).
+    assert (Hfull : forall y, In y full -> P y).
+    { intros y Hy. unfold full in Hy. apply in_app_or in Hy as [Hy|Hy]; auto. }
+    set (control := control_events (dedup_events (fst cu)) (snd cu) full).
+    assert (Hctl : forall y, In y control -> P y).
+    { intros y Hy. apply control_events_sub in Hy as [Hy|Hy]; [auto|]. apply Hc, dedup_in. exact Hy. }
+    assert (Hoth : forall y, In y (other_events (snd cu) full control) -> P y).
+    { intros y Hy. unfold other_events in Hy. apply filter_In in Hy as [Hy _]. auto. }
+    destruct (fst cu) eqn:E1; destruct (snd cu) eqn:E2; destruct auth_events eqn:E3;
+      try (intros []); fold authmap; rewrite <- ?E1, <- ?E2, <- ?E3 in *; fold full; fold control;
+      destruct v21; intro H; apply resolve_tail_values in H; simpl in H;
+      repeat match goal with
+             | H : _ \/ _ |- _ => destruct H as [H|H]
+             | H : False |- _ => destruct H
+             end; auto;
+      try (apply apply_events_values in H as [[]|H]);
+      try (apply power_order_in in H); auto.
+  Qed.
 End Subset.
